@@ -138,3 +138,4 @@ def handleAna (fs : List (String × String)) : Option String := do
   else none
 
 end FH.Driver
+
